@@ -117,6 +117,8 @@ def pol_sdl(p) -> str:
     kinds = 'all' if p['kinds'] == 'all' else ', '.join(KIND_SDL[k] for k in p['kinds'])
     when = f" when ({ex_text(tuple_ex(p['when']))})" if p.get('when') is not None else ''
     using = p['text'] if p.get('opaque') else ex_text(tuple_ex(p['expr']))
+    if p.get('tof'):
+        using = f"({using}) and {tof_conjunct(p['tof'], '.f0' if p.get('tof_prop') else '(global g0)')}"
     return (f"access policy p{p['id']}{when} {'allow' if p['allow'] else 'deny'} {kinds} "
             f"using ({using});")
 
@@ -134,7 +136,18 @@ def gen_policy(rng, pid, atoms):
     else:
         kinds = [rng.choice(['UpdateWrite', 'Delete', 'UpdateRead'])]
     return {'id': pid, 'allow': rng.random() < 0.6, 'kinds': kinds, 'expr': gen_expr(rng, atoms),
-            'when': gen_expr(rng, atoms) if rng.random() < 0.15 else None}
+            'when': gen_expr(rng, atoms) if rng.random() < 0.15 else None,
+            'tof': rng.choice(['is', 'cast']) if rng.random() < 0.08 else None}
+
+
+def tof_conjunct(kind, operand) -> str:
+    """an always-true conjunct that makes the compiler go through the `typeof` branch of
+    typegen._ql_typeexpr_get_types while compiling the policy"""
+    if kind == 'is':
+        return f'(false is typeof {operand})'
+    if kind == 'cast':
+        return f'(<typeof {operand}>true)'
+    return f"((introspect (typeof {operand})).name = 'std::bool')"
 
 
 # ------------------------------------------------------------------ hierarchies
@@ -173,6 +186,7 @@ def gen_hierarchy(rng, nmax=7, shape=None, extras=None):
     for _ in range(npol):
         p = gen_policy(rng, pid, ATOMS)
         p['on'] = rng.randrange(n)
+        p['tof_prop'] = rng.random() < 0.6
         pols.append(p)
         pid += 1
     links = {'one': rng.randrange(n), 'many': rng.randrange(n), 'req': rng.randrange(n),
@@ -229,7 +243,8 @@ def add_extras(rng, c, anc):
         if ref == 'func':
             on = n            # (altering a type in the cone of the type a function reads is refused)
         p = {'id': pid, 'on': on, 'allow': rng.random() < 0.8, 'kinds': rng.choice([['Select'], 'all']),
-             'opaque': True, 'text': text, 'ref': ref, 'when': None, 'expr': ('true',)}
+             'opaque': True, 'text': text, 'ref': ref, 'when': None, 'expr': ('true',),
+             'tof': 'intro' if rng.random() < 0.15 else None}
         pid += 1
         if on == n:
             if c['lpol'] is None:
@@ -499,6 +514,10 @@ class IREval:
             raise Unabs(f'pointer {nm}')
         if isinstance(n, irast.TypeCast):
             return self.ev(n.expr, val)
+        if isinstance(n, irast.TypeCheckOp):
+            if n.result is None:
+                raise Unabs('type check not decided at compile time')
+            return None if self.ev(n.left, val) is None else bool(n.result)
         raise Unabs(f'IR node {type(n).__name__}')
 
 
@@ -857,6 +876,20 @@ def gen_queries(rng, c, rs: RealSchema, k: int):
             ('select count(L.uni)', [[L]], 'aggregate-union-type'),
             (f'select {T(r1)}[is {T(u0)} | {T(u1)}]', [], 'intersection-union-type'),
         ]
+    al, go = c['alias'], c['gobj']
+    pool += [
+        ('select (true is typeof AL.f0, AL)', [[al]], 'typeof-alias-before'),
+        ('select (AL, true is typeof AL.f0)', [[al]], 'typeof-alias-after'),
+        ('select (<typeof AL.f0>true, AL)', [[al]], 'typeof-cast-alias-before'),
+        ('select ((introspect (typeof AL.f0)).name, AL)', [[al]], 'typeof-introspect-alias-before'),
+        ('select AL filter (.f0 ?? false) is typeof AL.f0', [[al]], 'typeof-alias-in-filter'),
+        (f'select (true is typeof {T(r1)}.f0, {T(r1)})', [[r1]], 'typeof-type-before'),
+        (f'select {T(r1)} {{ t := (introspect (typeof {T(r2)}.f0)).name, n := count({T(r2)}) }}', [[r1], [r2]],
+         'typeof-introspect-in-shape'),
+        ('select (true is typeof (global gobj).f0, global gobj)', [[go]], 'typeof-global-before'),
+        ('select (global gobj, true is typeof (global gobj).f0)', [[go]], 'typeof-global-after'),
+        ('select (true is typeof L.one.f0, L.one)', [[one], [L]], 'typeof-link-before'),
+    ]
     ex = c.get('extras')
     if ex:
         pool = [q for q in pool if not q[2].startswith('computed-')]
@@ -894,7 +927,10 @@ def gen_queries(rng, c, rs: RealSchema, k: int):
                  'func-in-shape'),
                 (f'select (count({T(ex["direct"])}), {U})', [[u], [ex['direct']]], 'direct-tuple-before'),
             ]
-        xt += [('select SA', a_exp, 'alias-alone'), ('select global gsc', [[g_on]], 'global-scalar-alone')]
+        xt += [('select SA', a_exp, 'alias-alone'), ('select global gsc', [[g_on]], 'global-scalar-alone'),
+               ('select (SA is typeof SA, SA)', a_exp, 'typeof-salias-before'),
+               ('select (SA, SA is typeof SA)', a_exp, 'typeof-salias-after'),
+               ('select ((global gsc) is typeof (global gsc), global gsc)', [[g_on]], 'typeof-sglobal-before')]
         # these are the point of such a hierarchy: take most of the budget from them
         take = xt if c.get('all_extras') else rng.sample(xt, min(len(xt), max(4, k - 2)))
         rest0 = rng.sample(pool, min(len(pool), max(k - len(take), 2)))
@@ -1037,6 +1073,15 @@ def witness_cases():
         dict(base, n=3, shape='w-union-link', bases=[[], [], [1, 0]], abstract=[False] * 3,
              pols=[P(0, 2, False, 'g0')], links={'one': 0, 'many': 1, 'req': 0, 'uni': [0, 1]},
              must=['link-union-type', 'shape-union-type', 'coalesce']),
+        # `typeof` inside a policy expression / over a schema alias before its use
+        dict(base, n=2, shape='w-typeof-policy', bases=[[], [0]], abstract=[False] * 2,
+             pols=[dict(P(0, 0, True, 'g0'), tof='is', tof_prop=True), P(1, 1, False, 'f0')],
+             links={'one': 0, 'many': 1, 'req': 0, 'uni': None}),
+        dict(base, n=2, shape='w-typeof-alias', bases=[[], [0]], abstract=[False] * 2,
+             pols=[P(0, 0, True, 'g0')], links={'one': 0, 'many': 1, 'req': 0, 'uni': None},
+             must=['typeof-alias-before', 'typeof-alias-after', 'typeof-cast-alias-before',
+                   'typeof-introspect-alias-before', 'typeof-global-before', 'typeof-global-after',
+                   'typeof-type-before']),
         # policy-in-policy through a scalar alias / a computed scalar global / a function
         dict(base, n=3, shape='w-policy-alias', bases=[[], [], []], abstract=[False] * 3,
              pols=[P(0, 0, True, 'g0'),
@@ -1160,7 +1205,7 @@ def run(ctx: core.Ctx):
                 cases.append((d['case'], d.get('queries')))
     else:
         cases = [(w, None) for w in witness_cases()]
-        for _ in range(ctx.budget(22, 300)):
+        for _ in range(ctx.budget(18, 300)):
             cases.append((gen_hierarchy(rng), None))
     nq = ctx.budget(7, 12)
     vals_all = valuations()
@@ -1176,6 +1221,10 @@ def run(ctx: core.Ctx):
     samples = []
     pending = []       # per hierarchy: data needed once the model has answered
     class_reported = {}
+
+    TYPEOF_BEFORE = {'typeof-alias-before', 'typeof-cast-alias-before', 'typeof-introspect-alias-before',
+                     'typeof-global-before', 'typeof-salias-before', 'typeof-sglobal-before',
+                     'typeof-link-before', 'typeof-type-before', 'typeof-introspect-in-shape'}
 
     def report_plan(kind, cause, key_tail, what, detail):
         k = f'plan:{kind}:{cause}'
@@ -1197,6 +1246,12 @@ def run(ctx: core.Ctx):
             stats['schema_errors'] += 1
             if len(ctx.notes) < 8:
                 ctx.notes.append(f'schema rejected [{c["shape"]}]: {type(e).__name__}: {str(e)[:160]}')
+            continue
+        except (RecursionError, AssertionError, KeyError, AttributeError) as e:
+            # the schema layer crashed on a generated schema: not this property, but worth a note
+            stats['schema_crashes'] = stats.get('schema_crashes', 0) + 1
+            ctx.notes.append(f'schema layer crashed [{c["shape"]}] {type(e).__name__}: {str(e)[:120]} on: '
+                             + sdl.replace('\n', ' ') + ' ## ' + (case_ddl(c) or '').replace('\n', ' '))
             continue
         rs = RealSchema(sch, c)
         stats['hierarchies'] += 1
@@ -1236,6 +1291,7 @@ def run(ctx: core.Ctx):
             queries += qs
         entries_all = None
         evaluator = None
+        case_infix = ''
         for (qtext, expect, path) in queries:
             stats['queries'] += 1
             hist['paths'][path] = hist['paths'].get(path, 0) + 1
@@ -1255,27 +1311,54 @@ def run(ctx: core.Ctx):
             if path == 'all-types':
                 entries_all = entries
                 evaluator = IREval(ir.globals, irast)
+                # root cause A (typegen `typeof` branch rebinding env.type_rewrites): a policy whose
+                # expression goes through `typeof` loses the rewrite of its type (and of whatever
+                # rewrite was being built at that moment).  Evidence independent of the model: a type
+                # with policies has no rewrite at all although the query selects it.
+                if any(p.get('tof') for p in all_pols(c)):
+                    lost_types = [t for t in range(N) if rs.protected(t) and (t, False) not in entries]
+                    if lost_types:
+                        case_infix = 'typeof-in-policy:'
+                        stats['known_class_hits']['typeof:policy-rewrite-lost'] = \
+                            stats['known_class_hits'].get('typeof:policy-rewrite-lost', 0) + 1
+                        ks = class_reported.setdefault('typeof:policy-rewrite-lost', set())
+                        if len(ks) < 2:
+                            ks.add(tag)
+                            ctx.fail(f'typeof:policy-rewrite-lost:{tag}',
+                                     'a policy expression containing `typeof` makes try_type_rewrite lose the '
+                                     f'rewrite: no type_rewrites entry for {[rs.names[t] for t in lost_types]} '
+                                     f'(`select {rs.names[lost_types[0]]}` reads the table without any policy)',
+                                     {'case': c, 'queries': [[qtext, expect, path]], 'sdl': sdl,
+                                      'lost': [rs.names[t] for t in lost_types]})
             probs, st = audit_sql(res.ast, ir, rs, entries, expect, pgast, cast, irast)
             stats['sql_units'] += st['units']
             stats['sql_rewrite_ctes'] += st['rewrite_ctes']
             stats['sql_raw_reads'] += st['raw_reads']
+            # root cause B (same branch): a schema alias / computed global first compiled inside a
+            # `typeof` operand stays cached while the rewrites made for it are discarded
+            q_infix = case_infix or ('typeof-view-cache:' if path in TYPEOF_BEFORE else '')
             for (cls, pb) in probs:
-                k = f'sql:{cls}'
+                k = f'sql:{cls}:{q_infix}' if q_infix else f'sql:{cls}'
+                k = k.rstrip(':')
                 stats['known_class_hits'][k] = stats['known_class_hits'].get(k, 0) + 1
                 ks = class_reported.setdefault(k, set())
-                if len(ks) < 2 or cls != 'raw-read-compound-type':
+                if len(ks) < 2 or (cls != 'raw-read-compound-type' and not q_infix):
                     ks.add(f'{path}:{tag}')
                     ctx.fail(f'{k}:{path}:{tag}', f'SQL audit [{path}] {qtext!r}: {pb}',
                              {'case': c, 'queries': [[qtext, expect, path]], 'sdl': sdl})
-            pending.append(('entries', ci, tag, c, sdl, qtext, path, entries, ir.schema))
+            if not case_infix:
+                pending.append(('entries', ci, tag, c, sdl, qtext, path, entries, ir.schema))
             distinct.add((sline, qtext))
             if len(samples) < 4 and path != 'all-types' and rng.random() < 0.05:
                 samples.append({'sdl': sdl, 'query': qtext, 'rewrites': {f'{k}': (v[0] if v[0] != 'union' else v)
                                                                         for k, v in entries.items()}})
         if entries_all is None:
             continue
-        lines.append(f'S|{sline}|E')
-        expect_real.append(('E', ci, tag, c, sdl, rs, entries_all, evaluator))
+        if not case_infix:
+            # (with the rewrite lost there is nothing of try_type_rewrite's result left to compare;
+            # the oracles below still run on what the compiler produced)
+            lines.append(f'S|{sline}|E')
+            expect_real.append(('E', ci, tag, c, sdl, rs, entries_all, evaluator))
         if any(p.get('opaque') for p in all_pols(c)):
             # conditions that read the database (policy-in-policy): shape of the map and the audits only
             stats['opaque_hierarchies'] = stats.get('opaque_hierarchies', 0) + 1
@@ -1334,12 +1417,18 @@ def run(ctx: core.Ctx):
                     detail = {'case': c, 'sdl': sdl, 'query': f'select T{t}' if t < c['n'] else 'select L',
                               'globals': gv, 'objects': [[o[0], rs.names[o[1]], o[2]] for o in objs],
                               'returned': got, 'expected': want}
-                    if bypass:
+                    if bypass and case_infix:
+                        report_plan('bypass', case_infix.rstrip(':'), f'{tag}:{t}',
+                                    f'real rewrite plan for select {rs.names[t]} returns objects the policies '
+                                    f'hide (types {sorted({rs.names[tyof[x]] for x in bypass})})', detail)
+                    elif bypass:
                         ctx.fail(f'plan:bypass:{tag}:{t}',
                                  f'real rewrite plan for select {rs.names[t]} returns objects the policies hide '
                                  f'(types {sorted({rs.names[tyof[x]] for x in bypass})})', detail)
                     causes = classify_plan_failure(rs, entries_all, t, {tyof[x] for x in missing},
                                                    {tyof[x] for x in dups})
+                    if case_infix:
+                        continue       # everything else in such a hierarchy follows from the lost rewrite
                     if dups:
                         cause = 'redundant-base-duplicates' if 'redundant-base-duplicates' in causes else 'other'
                         report_plan('dup', cause, f'{tag}:{t}',
@@ -1352,8 +1441,9 @@ def run(ctx: core.Ctx):
                                     f'(types {sorted({rs.names[tyof[x]] for x in missing})})', detail)
             if got is None:
                 break
-            lines.append(f'S|{sline}|V|{dbline}')
-            expect_real.append(('V', ci, tag, c, sdl, rs, real_sel, gv))
+            if not case_infix:
+                lines.append(f'S|{sline}|V|{dbline}')
+                expect_real.append(('V', ci, tag, c, sdl, rs, real_sel, gv))
         if ci % 10 == 9:
             ctx.log(f'{ci + 1}/{len(cases)} hierarchies, {stats["queries"]} queries compiled')
 
